@@ -107,6 +107,16 @@ func randomChain(rng *rand.Rand, v6 bool) []PlugConf {
 	for _, k := range perm[:n] {
 		chain = append(chain, PlugConf{pool[k], validArgs(rng, pool[k], v6)})
 	}
+	if !sqliteUsable() {
+		// a build without cgo (the 32-bit worker) has no sqlite: the range plugin cannot be hosted there
+		kept := chain[:0]
+		for _, p := range chain {
+			if p.Name != "range" {
+				kept = append(kept, p)
+			}
+		}
+		chain = kept
+	}
 	if rng.Intn(4) == 0 {
 		// a plugin that has no setup function for this protocol: legal, skipped by the loader
 		other := []string{"router", "netmask", "mtu", "lease_time", "staticroute", "ipv6only", "autoconfigure"}
